@@ -30,6 +30,9 @@ CLAIMED = {
  "C14": ("exhaustive subset enumeration monitor on SealedState::confirm over fabricated stake distributions",
          "For every weight tuple from {1,2,3,5,8}^n (n<=4 exhaustive, n=5,6 sampled) every signer subset is confirmed against real signatures and compared with the 2/3 rule in exact arithmetic; corrupted, swapped, foreign and truncated signatures must never confirm; supersets never un-confirm.",
          "Stake sets are fabricated through from_block; ed25519 is trusted.", "6/C14"),
+ "C15": ("settlement monitor over hooked snapshots around the swap, deposit and withdrawal phases against exact big-integer arithmetic",
+         "Pool-heavy histories (every kind x every spelling of a pool name, 1-30 requests per pool on both sides, amounts 1..2^120, built-in/custom/new pools): R1 only genuine requests' outputs change (everything else bit-identical, also outside the phases), R2 pro-rata floors, R3 product never falls, R4 payout <= constant product less 0.5%, R5 reserves credited exactly / debited within dust, R6 mint/burn formulas, issued <= minted and proportional, R7 each side only takes and pays the canonical denomination of its storage slot.",
+         "Blocks inside the documented legacy window (mainnet/testnet below 978392) are excluded; payouts capped at the maximum coin value and saturating reserves are excluded and counted.", "6/C15"),
  "C16": ("structural invariant monitor at quiescent points: after every seal the pools tree and the coin tree are walked from the hooked snapshot",
          "Pool-heavy histories of 8-40 blocks (several deposits per pool per block with equal/perfect-square/repeated amounts, withdraw-everything, one-sided floods, subsidies, pegging): built-in pools exist with both reserves non-zero; no pool entry under a name no transaction used; for every pool, liquidity tokens summed over all unspent coins <= recorded liqs.",
          "Histories in which a test-network faucet minted a liquidity-token denomination are excluded from the backing rule (a faucet can mint any denomination by design) and exercised under C09.", "6/C16"),
